@@ -4,7 +4,8 @@ From Coq Require Import List ZArith NArith Bool Sorting.Permutation.
 From Pcfg Require Import Str Multiword Detect Segment SegCorr DetectProofsStr DetectProofsDrive DetectProofsSimple
      DetectProofsMw DetectProofsSeg DetectProofsWeb DetectProofsKbd DetectProofsCount DetectProofsAdj DetectProofsPipe DetectProofsInst.
 From Pcfg Require Import DetectRt DetectGenProofs DetectGenInst.
-From PcfgGen Require Import Consts_gen Unicode_gen Detect_gen.
+From Pcfg Require Import DetectRt2 DetectGenProofsMw DetectGenProofsEmail DetectGenProofsWeb DetectGenProofsKbd DetectGenInst2.
+From PcfgGen Require Import Consts_gen Unicode_gen Detect_gen DetectMw_gen DetectEmail_gen DetectWeb_gen DetectKbd_gen.
 Import ListNotations.
 Open Scope Z_scope.
 
@@ -324,6 +325,162 @@ Example C05_source_demo_detectors :
           Some [[112; 97; 115; 115]%N], Some [[85; 76; 76; 76]%N]).
 Proof. exact demo_py_detectors. Qed.
 
+(* ---- third tie to the source: the remaining detectors (harness/translate_detect2.py ->
+   gen/DetectMw_gen.v, gen/DetectEmail_gen.v, gen/DetectWeb_gen.v, gen/DetectKbd_gen.v).
+
+   The multi-word detector.  MultiWordDetector keeps its words in a trie of nested dicts
+   (DetectRt2.trie; the translated methods are functions of it), the model in the finite
+   map word |-> count it represents (mw_rep t m: every word has the same "count" entry in
+   both).  For every oracle isalpha / lower_c and all constructor arguments: *)
+Theorem C05_source_mw_get_count_is_model : forall lower_c t m w, mw_rep t m ->
+  py_mw_get_count lower_c t w = Some (mw_count lower_c m w).
+Proof. exact py_mw_get_count_eq. Qed.
+(* for EVERY fuel: the translated recursion and the model's run out of it together *)
+Theorem C05_source_mw_identify_multi_is_model : forall lower_c thr minl t m, mw_rep t m -> forall fuel s,
+  py_mw_identify_multi lower_c thr minl fuel t s = mw_identify lower_c thr minl fuel m s.
+Proof. exact py_mw_identify_multi_eq. Qed.
+Theorem C05_source_mw_parse_is_model : forall lower_c thr minl maxl t m, mw_rep t m -> forall s,
+  py_mw_parse lower_c thr minl maxl t s = mw_parse lower_c thr minl maxl m s.
+Proof. exact py_mw_parse_eq. Qed.
+(* train never raises and keeps the representation *)
+Theorem C05_source_mw_train_is_model : forall isalpha lower_c thr minl maxl t m st pw, mw_rep t m ->
+  exists t', py_mw_train isalpha lower_c thr minl maxl t pw st = Some t' /\
+             mw_rep t' (mw_train isalpha lower_c thr minl maxl m st pw).
+Proof. exact py_mw_train_eq. Qed.
+Theorem C05_source_mw_empty_is_model : mw_rep t_empty [].
+Proof. exact rep_empty. Qed.
+(* hence for every training history, on the instance the correspondence runs *)
+Theorem C05_source_mw_history_is_model : forall h t m, mw_rep t m ->
+  exists t', py_mw_history t h = Some t' /\ mw_rep t' (mw_history m h).
+Proof. exact py_mw_history_is_model. Qed.
+(* C05_sound_multiword for the translated detector, stated with the translated
+   _get_count only, for EVERY state reachable from the constructor by calls of train *)
+Theorem C05_sound_multiword_source : forall t s b ws, mw_reachable t -> py_mwparse_c t s = Some (b, ws) ->
+  ws = [s] \/ (concat ws = s /\ Forall (py_base_word t) ws /\ (2 <= length ws)%nat /\
+               exists v, py_mwcount_c t s = Some v /\ v < c_threshold).
+Proof. exact py_mwparse_c_sound. Qed.
+Theorem C05_source_mw_parse_never_raises : forall t s, mw_reachable t -> py_mwparse_c t s <> None.
+Proof. exact py_mwparse_c_never_raises. Qed.
+Example C05_source_mw_demo :
+  exists t, py_mw_history t_empty h_demo = Some t /\
+    py_mwcount_c t [112; 97; 115; 115]%N = Some (c_threshold + 1) /\
+    py_mwparse_c t [112; 97; 115; 115; 119; 111; 114; 100]%N = Some (true, [[112; 97; 115; 115]; [119; 111; 114; 100]]%N) /\
+    py_mwparse_c t [112; 97; 115; 115; 119; 111; 114; 107]%N = Some (false, [[112; 97; 115; 115; 119; 111; 114; 107]]%N).
+Proof. exact demo_py_mw. Qed.
+
+(* The e-mail and website detectors.  dres_email / dres_web read what the translated
+   detect_* returns the way email_detection / website_detection do (`if email:` /
+   `if url:`, then the parsing is spliced in); the equalities hold for every oracle and
+   every TLD list (website: without an empty string - with one the Python loop does not
+   terminate), with the length-preserving lower-casing (aligned = true). *)
+Theorem C05_source_detect_email_is_model : forall lower_c tlds sec,
+  dres_email (py_detect_email lower_c tlds sec) = detect_email lower_c true tlds (fst sec).
+Proof. exact py_detect_email_eq. Qed.
+Theorem C05_source_email_detection_is_model : forall lower_c tlds sl,
+  py_email_detection lower_c tlds sl =
+  match drive_all (detect_email lower_c true tlds) false sl with
+  | None => None
+  | Some (out, fs) => Some (out, map fst fs, map (fun f => Some (snd f)) fs)
+  end.
+Proof. exact py_email_detection_eq. Qed.
+Theorem C05_source_detect_website_is_model : forall isalpha lower_c tlds sec, Forall (fun t => 1 <= len t) tlds ->
+  dres_web (py_detect_website isalpha lower_c tlds sec) = detect_website isalpha lower_c true tlds (fst sec).
+Proof. exact py_detect_website_eq. Qed.
+Theorem C05_source_website_detection_is_model : forall isalpha lower_c tlds sl, Forall (fun t => 1 <= len t) tlds ->
+  py_website_detection isalpha lower_c tlds sl =
+  match drive_all (detect_website isalpha lower_c true tlds) false sl with
+  | None => None
+  | Some (out, fs) => Some (out, map (fun f => fst (fst f)) fs, map (fun f => Some (snd (fst f))) fs, map snd fs)
+  end.
+Proof. exact py_website_detection_eq. Qed.
+(* email_split_ok / website_split_ok for the translated detectors *)
+Theorem email_split_ok_source :
+  det_split_ok c_isalpha c_isdigit c_lower c_kbs c_min_run year_prefixes context_strings py_detect_email_c.
+Proof. exact py_email_split_ok. Qed.
+Theorem website_split_ok_source :
+  det_split_ok c_isalpha c_isdigit c_lower c_kbs c_min_run year_prefixes context_strings py_detect_website_c.
+Proof. exact py_website_split_ok. Qed.
+Example C05_source_email_web_demo :
+  py_detect_email c_lower tld_list ([98; 111; 98; 64; 104; 111; 116; 109; 97; 105; 108; 46; 99; 111; 109; 49; 50; 51]%N, None) =
+    Some (PList [([98; 111; 98; 64; 104; 111; 116; 109; 97; 105; 108; 46; 99; 111; 109]%N, Some LE); ([49; 50; 51]%N, None)],
+          Some [98; 111; 98; 64; 104; 111; 116; 109; 97; 105; 108; 46; 99; 111; 109]%N,
+          Some [104; 111; 116; 109; 97; 105; 108; 46; 99; 111; 109]%N) /\
+  py_website_detection c_isalpha c_lower tld_list
+    [([120; 120; 119; 119; 119; 46; 114; 111; 99; 107; 121; 111; 117; 46; 99; 111; 109; 47; 97; 98; 99]%N, None)] =
+    Some ([([120; 120]%N, None);
+           ([119; 119; 119; 46; 114; 111; 99; 107; 121; 111; 117; 46; 99; 111; 109; 47; 97; 98; 99]%N, Some LW)],
+          [[119; 119; 119; 46; 114; 111; 99; 107; 121; 111; 117; 46; 99; 111; 109; 47; 97; 98; 99]%N],
+          [Some [114; 111; 99; 107; 121; 111; 117; 46; 99; 111; 109]%N], [Some [119; 119; 119; 46]%N]).
+Proof. exact demo_py_email_web. Qed.
+
+(* The keyboard-walk detector.  The Python code keeps dicts from the NAME of a layout to
+   a key's (row, position) / to the last step of a run; the model one entry per layout by
+   position.  dict_of names l / sel names flags are the dicts that represent such lists
+   for layouts with pairwise different names.  For every oracle: *)
+Theorem C05_source_find_keyboard_row_column_is_model : forall c kbds,
+  NoDup (map b_name kbds) -> Forall board_ok kbds ->
+  py_find_keyboard_row_column c kbds = Some (dict_of (map b_name kbds) (pos_list (map b_rows kbds) c)).
+Proof. exact py_find_keyboard_row_column_eq. Qed.
+(* the layouts on which the two keys are neighbours (the values of the returned dict are never read) *)
+Theorem C05_source_is_next_on_keyboard_is_model : forall names past cur, NoDup names ->
+  exists d, py_is_next_on_keyboard (dict_of names past) (dict_of names cur) = Some d /\
+            d_keys d = sel names (next_on past cur).
+Proof. exact py_is_next_on_keyboard_eq. Qed.
+Theorem C05_source_interesting_keyboard_is_model : forall isalpha isdigit lower_c combo,
+  py_interesting_keyboard isalpha isdigit lower_c combo =
+  interesting isalpha isdigit lower_c kb_false_positive_words combo.
+Proof. exact py_interesting_keyboard_eq. Qed.
+(* detect_keyboard_walk with the default min_keyboard_run, for EVERY fuel (the translated
+   recursion runs out of fuel S n exactly when the model's runs out of n); kw_view forgets
+   the third result (detected_keyboards), which the parser does not use *)
+Theorem C05_source_detect_keyboard_walk_is_model : forall isalpha isdigit lower_c fuel pw,
+  kw_view (py_detect_keyboard_walk isalpha isdigit lower_c (S fuel) pw 4) =
+  detect_keyboard_walk isalpha isdigit lower_c py_kbs kb_false_positive_words 4 fuel pw.
+Proof. exact py_detect_keyboard_walk_eq. Qed.
+(* the layouts read off the dict literals of the source are the extracted rows *)
+Theorem C05_side_translated_layouts :
+  py_kbs = c_kbs /\ c_min_run = 4 /\ NoDup (map b_name py_keyboards) /\ Forall board_ok py_keyboards.
+Proof. exact (conj side_py_kbs (conj side_min_run_4 (conj py_keyboards_names_differ py_keyboards_ok))). Qed.
+(* the default values of the source: detect_keyboard_walk(password) runs with min_keyboard_run = 4,
+   train(password) with set_threshold = False *)
+Theorem C05_side_translated_defaults :
+  py_detect_keyboard_walk_default_min_keyboard_run = 4 /\ py_mw_train_default_set_threshold = false.
+Proof. exact (conj side_default_min_run side_default_set_threshold). Qed.
+Theorem keyboard_split_ok_source : forall pw, pw <> [] ->
+  exists sl f dk, py_keyboard_walk_c pw = Some (sl, f, dk) /\ tiles c_pm pw sl /\ Forall c_sound sl.
+Proof. exact py_keyboard_split_ok. Qed.
+
+(* ---- PCFGPasswordParser.parse over the translated detect_keyboard_walk, email_detection,
+   website_detection and MultiWordDetector.parse: no detector is a model parameter any more *)
+Theorem C05_source_parse_is_model_ext : forall isalpha isdigit isupper lower_c kbs fp_words min_run tlds thr minl maxl m
+    (mwp : str -> option (bool * list str)) (kw : str -> option (list section))
+    (em web : list section -> option (list section)) pw,
+  (forall x, mwp x = mwparse lower_c thr minl maxl m x) ->
+  kw pw = model_keyboard_walk isalpha isdigit lower_c kbs fp_words min_run pw ->
+  (forall sl, em sl = model_email_detection lower_c tlds sl) ->
+  (forall sl, web sl = model_website_detection isalpha lower_c tlds sl) ->
+  py_parse isalpha isdigit isupper lower_c mwp kw em web pw =
+  parse_view (parse isalpha isdigit isupper lower_c true kbs fp_words min_run tlds year_prefixes context_strings
+                    thr minl maxl m pw).
+Proof. exact py_parse_eq_ext. Qed.
+Theorem C05_source_parse_full_is_model : forall t m pw, mw_rep t m -> py_parse_full_c t pw = parse_view (parse_c m pw).
+Proof. exact py_parse_full_c_is_model. Qed.
+Theorem C05_tiling_source_full : forall t pw, mw_reachable t -> pw <> [] ->
+  exists sl ys cs al ms ds os, py_parse_full_c t pw = Some (sl, ys, cs, al, ms, ds, os) /\
+    tiles c_pm pw sl /\ Forall c_sound sl /\ Forall (fun y => snd y <> None) sl.
+Proof. exact py_parse_full_c_tiling. Qed.
+Theorem C05_never_raises_source_full : forall t pw, mw_reachable t -> pw <> [] -> py_parse_full_c t pw <> None.
+Proof. exact py_parse_full_c_never_raises. Qed.
+Example C05_source_full_demo :
+  py_parse_full_c t_empty w_demo =
+  Some ([([49; 113; 97; 122]%N, Some (LK 4)); ([50; 48; 49; 57]%N, Some LY); ([35; 49]%N, Some LX);
+         ([112; 97; 115; 115]%N, Some (LA 4)); ([33]%N, Some (LO 1))],
+        [[50; 48; 49; 57]%N], [[35; 49]%N], [[112; 97; 115; 115]%N], [[76; 76; 76; 76]%N], [], [[33]%N]) /\
+  py_keyboard_walk_c [116; 101; 115; 116; 49; 113; 97; 122; 116; 101; 115; 116]%N =
+  Some ([([116; 101; 115; 116]%N, None); ([49; 113; 97; 122]%N, Some (LK 4)); ([116; 101; 115; 116]%N, None)],
+        [[49; 113; 97; 122]%N], [[113; 119; 101; 114; 116; 121]%N]).
+Proof. exact demo_py_parse_full. Qed.
+
 Print Assumptions split_driver_tiling.
 Print Assumptions C05_tiling.
 Print Assumptions C05_counters.
@@ -335,3 +492,12 @@ Print Assumptions C05_source_detect_alpha_is_model.
 Print Assumptions C05_tiling_source.
 Print Assumptions C05_counters_source.
 Print Assumptions C05_source_year_detection_total.
+Print Assumptions C05_source_mw_train_is_model.
+Print Assumptions C05_sound_multiword_source.
+Print Assumptions C05_source_detect_website_is_model.
+Print Assumptions website_split_ok_source.
+Print Assumptions email_split_ok_source.
+Print Assumptions C05_source_detect_keyboard_walk_is_model.
+Print Assumptions keyboard_split_ok_source.
+Print Assumptions C05_source_parse_full_is_model.
+Print Assumptions C05_tiling_source_full.
